@@ -11,7 +11,7 @@
 (***************************************************************************)
 EXTENDS Pyxis, Props, Json
 
-CONSTANTS NB0, Variants, WithB1, B1Vft, Clash, DDs, DDVft, Ptrs, Split, Lead, EmptyBlocks, B1Names
+CONSTANTS NB0, Variants, WithB1, B1Vft, Clash, DDs, DDVft, Ptrs, Split, Lead, EmptyBlocks, B1Names, SameName, SameName
 
 Leaf(n) == Field(n, "pub", <<>>, TCPtr(TNm("u8")), None, FALSE)
 (* base fields carry a doc comment: it is an attribute next to `base`, in either order *)
@@ -71,7 +71,8 @@ MkInput(ptr, nb0, v, k, b1, b1v, clash, dd, ddv, split, lead, eb, dvis, b1n) ==
       impls == <<Impl("B0", <<M0(<<>>), P0, S0>>)>>
                (* B1 also has a public `p0`: B0's private function of that name does not take the name *)
                \o (IF b1 THEN <<Impl("B1", <<M0(<<Arg("k", TNm("i32"))>>), Func("p0", "pub", <<>>, <<ArgC>>, TNm("u32"), 458752, None, "")>>)>> ELSE <<>>)
-               \o <<Impl("D", <<IF clash = "derived" THEN M0(<<>>) ELSE MD>>)>>
+               (* "renamed": D's own function has the name that B1's m0 gets when it is renamed (<field>_m0): taken as well *)
+               \o <<Impl("D", <<IF clash = "derived" THEN M0(<<>>) ELSE IF clash = "renamed" THEN [MD EXCEPT !.name = b1n \o "_m0"] ELSE MD>>)>>
       isBase(n) == n \in {"B0", "B1"}
       mbase == [Module(<<"base">>, <<>>, SelectSeq(defs, LAMBDA x : isBase(x.name)))
                   EXCEPT !.impls = SelectSeq(impls, LAMBDA x : isBase(x.name))]
@@ -82,8 +83,17 @@ MkInput(ptr, nb0, v, k, b1, b1v, clash, dd, ddv, split, lead, eb, dvis, b1n) ==
       mods |-> IF split THEN <<mder, mbase>>
                ELSE <<[Module(<<"m">>, <<>>, defs) EXCEPT !.impls = impls]>>]
 
+(* two different types of one simple name (base::B0, other::B0) in one hierarchy: each occurs once, each gets its conversion *)
+MkSameName(ptr) ==
+  LET mbase == [Module(<<"base">>, <<>>, <<TypeDef("B0", "pub", <<Leaf("x0")>>)>>) EXCEPT !.impls = <<Impl("B0", <<M0(<<>>)>>)>>]
+      mother == Module(<<"other">>, <<>>, <<TypeDef("B0", "pub", <<Leaf("y0"), Leaf("y1")>>),
+                                            TypeDef("Mid", "pub", <<BaseF("base", "B0"), Leaf("z")>>)>>)
+      mm == Module(<<"m">>, <<<<"base", "B0">>, <<"other", "Mid">>>>, <<TypeDef("X", "pub", <<BaseF("a", "B0"), BaseF("b", "Mid"), Leaf("w")>>)>>)
+  IN [ptr |-> ptr, mods |-> <<mbase, mother, mm>>]
+
 MCInit ==
-  /\ \E ptr \in Ptrs, nb0 \in NB0, v \in Variants, k \in 1..2, b1 \in WithB1, b1v \in B1Vft,
+  /\ \/ (SameName /\ \E ptr \in Ptrs : input = MkSameName(ptr))
+     \/ \E ptr \in Ptrs, nb0 \in NB0, v \in Variants, k \in 1..2, b1 \in WithB1, b1v \in B1Vft,
         clash \in Clash, dd \in DDs, ddv \in DDVft, split \in Split, lead \in Lead, eb \in EmptyBlocks, dvis \in {"pub", "priv"},
         b1n \in B1Names :
         (* the name of the second base field matters only when there is one; a name that starts with `_` next to the simplest shapes *)
@@ -95,6 +105,7 @@ MCInit ==
         /\ (nb0 = 0 => v \in {"none", "ext", "extm0", "emptyblk"})
         /\ (v = "trunc" => nb0 = 2) /\ (v = "swap" => nb0 = 2) /\ (v = "short" => nb0 = 3)
         /\ (~b1 => ~b1v)
+        /\ (clash = "renamed" => (b1 /\ v \in {"none", "same"} /\ dd = "none" /\ ~lead /\ ~split))
         /\ (dd = "none" => ddv = "no")
         /\ (ddv = "flat" => (v = "none" /\ nb0 = 3))
         /\ (eb => nb0 = 0)
